@@ -158,40 +158,57 @@ theorem renderInt_shape (f : NumFmt) (v : Int) :
     · intro c hc; exact List.all_eq_true.mp (allHex_render f.upper f.zeros v.natAbs) c hc
     · split <;> simp
 
-/-- **numbers**: `Group(hex_number | decimal_number | identifier)` on a rendered integer, after
-    any blanks, yields exactly its text; `S` may be any set of punctuation -/
-theorem offsetG_num {S : Nat → Bool} (hS : ∀ c, S c = true → Punct c = true) (f : NumFmt) (v : Int)
+/-- **numbers**: a rendered integer after any blanks is one `hex_number` or one `decimal_number`
+    token, exactly its text; `S` may be any set of punctuation -/
+theorem number_tok {S : Nat → Bool} (hS : ∀ c, S c = true → Punct c = true) (f : NumFmt) (v : Int)
     {b k : Txt} (hb : AllWs b) (hk : Tail S k) :
-    offsetG (b ++ (renderInt f v ++ k)) = some (.num (renderInt f v), k) := by
+    hexNumber (b ++ (renderInt f v ++ k)) = some (renderInt f v, k) ∨
+    (hexNumber (b ++ (renderInt f v ++ k)) = none ∧
+     decimalNumber (b ++ (renderInt f v ++ k)) = some (renderInt f v, k)) := by
   have hkP : Tail Punct k := hk.mono hS
   have sd : Stops isDigitC k := hkP.stops ws_not_digit punct_not_digit
   have sh : Stops isHexC k := hkP.stops ws_not_hex punct_not_hex
   have h120 : ∀ c, k.head? = some c → c ≠ 120 := by
     intro c hc e; subst e; rcases hkP.1 _ hc with h | h <;> simp [isWs, Punct] at h
-  have skip : ∀ R : Txt, (∀ c, R.head? = some c → isWs c = false) → R ≠ [] →
-      skipWs (b ++ (R ++ k)) = R ++ k := by
-    intro R hR hne
-    rw [skipWs_append hb]
-    cases R with
-    | nil => exact absurd rfl hne
-    | cons c cs => exact skipWs_cons_not (hR c rfl)
   rcases renderInt_shape f v with ⟨D, hne, hD, hR | hR⟩ | ⟨H, hne, hH, hR | hR⟩
-  · have hsk : skipWs (b ++ (D ++ k)) = D ++ k := skip D (by
-      intro c hc; cases D with
-      | nil => simp at hc
-      | cons d D' => simp at hc; subst hc; exact digit_not_ws _ (hD _ (by simp))) hne
-    simp only [offsetG, hexNumber, decimalNumber, hR, hsk, (hexRaw_digits_none hD hne h120).1,
-      (decimalRaw_digits hD hne sd).1]
+  · have hsk : skipWs (b ++ (D ++ k)) = D ++ k := by
+      rw [skipWs_append hb]
+      cases D with
+      | nil => exact absurd rfl hne
+      | cons d D' => exact skipWs_cons_not (digit_not_ws _ (hD _ (by simp)))
+    right
+    simp only [hexNumber, decimalNumber, hR, hsk, (hexRaw_digits_none hD hne h120).1,
+      (decimalRaw_digits hD hne sd).1, and_self]
   · have hsk : skipWs (b ++ (45 :: D ++ k)) = 45 :: (D ++ k) := by
       rw [skipWs_append hb]; exact skipWs_cons_not (by decide)
-    simp only [offsetG, hexNumber, decimalNumber, hR, hsk, (hexRaw_digits_none hD hne h120).2,
-      (decimalRaw_digits hD hne sd).2]
+    right
+    simp only [hexNumber, decimalNumber, hR, hsk, (hexRaw_digits_none hD hne h120).2,
+      (decimalRaw_digits hD hne sd).2, and_self]
   · have hsk : skipWs (b ++ (48 :: 120 :: H ++ k)) = 48 :: 120 :: (H ++ k) := by
       rw [skipWs_append hb]; exact skipWs_cons_not (by decide)
-    simp only [offsetG, hexNumber, hR, hsk, (hexRaw_hex hH hne sh).1]
+    left
+    simp only [hexNumber, hR, hsk, (hexRaw_hex hH hne sh).1]
   · have hsk : skipWs (b ++ (45 :: 48 :: 120 :: H ++ k)) = 45 :: 48 :: 120 :: (H ++ k) := by
       rw [skipWs_append hb]; exact skipWs_cons_not (by decide)
-    simp only [offsetG, hexNumber, hR, hsk, (hexRaw_hex hH hne sh).2]
+    left
+    simp only [hexNumber, hR, hsk, (hexRaw_hex hH hne sh).2]
+
+/-- `Group(hex_number | decimal_number | identifier)` on a rendered integer -/
+theorem offsetG_num {S : Nat → Bool} (hS : ∀ c, S c = true → Punct c = true) (f : NumFmt) (v : Int)
+    {b k : Txt} (hb : AllWs b) (hk : Tail S k) :
+    offsetG (b ++ (renderInt f v ++ k)) = some (.num (renderInt f v), k) := by
+  rcases number_tok hS f v hb hk with h | ⟨h1, h2⟩
+  · simp [offsetG, h]
+  · simp [offsetG, h1, h2]
+
+/-- the bare-number alternative of `memory` on a rendered integer -/
+theorem memBare_num {S : Nat → Bool} (hS : ∀ c, S c = true → Punct c = true) (f : NumFmt) (v : Int)
+    {b k : Txt} (hb : AllWs b) (hk : Tail S k) :
+    memBare (b ++ (renderInt f v ++ k)) =
+      some ({ off := some (.num (renderInt f v)), offIsStr := true }, skipWs k) := by
+  rcases number_tok hS f v hb hk with h | ⟨h1, h2⟩
+  · simp [memBare, h]
+  · simp [memBare, h1, h2]
 
 /-- the first character of a rendered integer is `-` or a digit -/
 theorem renderInt_head (f : NumFmt) (v : Int) :
